@@ -753,6 +753,11 @@ impl<'a> Sink<'a> {
     }
     fn eval(&mut self, input: Input, bytes: &[u8], rng: &mut Rng) {
         capture_hook(&input.what, bytes);
+        HEART.with(|h| {
+            if let Some(hb) = h.borrow().as_ref() {
+                hb.beat(&input.what, bytes);
+            }
+        });
         let mut t = Tally::default();
         let p = evaluate(&input, bytes, rng, &mut t);
         add_tally(&mut self.sh.tally, &t);
@@ -778,6 +783,8 @@ pub fn shard(part: Part, seed: u64, tier: &str, from: u64, to: u64, out: &str) -
     let mut sh = Shard16::default();
     let mut distinct: HashSet<u64> = HashSet::new();
     let sys = if part == Part::Sys { SysZones::load() } else { SysZones { zones: vec![] } };
+    let hb = crate::runner::Heartbeat::start(out, std::time::Duration::from_secs(30));
+    HEART.with(|h| *h.borrow_mut() = Some(hb));
     for i in from..to {
         let mut rng = Rng::new(crate::rng::derive(seed, part.stream(), i));
         sh.cases += 1;
@@ -1014,6 +1021,22 @@ pub fn run(opts: &Opts, only: Option<Part>) -> i32 {
         );
         let mut c_prob = 0;
         for k in 0..procs {
+            if let Ok(h) = std::fs::read_to_string(dir.join(format!("{}.hang", k))) {
+                let v: Value = serde_json::from_str(&h).unwrap_or(Value::Null);
+                let what = v["what"].as_str().unwrap_or("?").to_string();
+                if !seen.contains(&"hang".to_string()) {
+                    seen.push("hang".into());
+                    let mode = if what.contains("TZ string") { "tzstr" } else { "tzif" };
+                    findings.push(Finding {
+                        property: "C16".into(),
+                        signature: format!("C16/{}/hang", part.name()),
+                        detail: format!("no progress for 30 s while reading: {}", what),
+                        replay: json!({"kind": "c16-input", "class": "hang", "part": part.name(), "case": 0, "seed": opts.seed, "tier": opts.tier,
+                            "input": {"mode": mode, "hex": v["hex"], "expect": "Survive", "expected_debug": null, "what": what}}),
+                    });
+                }
+                continue;
+            }
             let text = std::fs::read_to_string(dir.join(format!("{}.json", k))).expect("read shard");
             let r: Shard16 = serde_json::from_str(&text).expect("parse shard");
             crate::runner::read_hashes(&dir.join(format!("{}.ilv", k)), &mut distinct);
@@ -1050,6 +1073,25 @@ pub fn run(opts: &Opts, only: Option<Part>) -> i32 {
     // replay files need the input bytes: regenerate them for the findings we keep
     for f in findings.iter_mut() {
         fill_input_bytes(f);
+        let class = f.replay["class"].as_str().unwrap_or("").to_string();
+        let mode = f.replay["input"]["mode"].as_str().unwrap_or("tzif").to_string();
+        let expect = f.replay["input"]["expect"].as_str().unwrap_or("").to_string();
+        let original = unhex(f.replay["input"]["hex"].as_str().unwrap_or("")).unwrap_or_default();
+        if expect == "Survive" && class != "hang" && !original.is_empty() {
+            let (min, used) = shrink_survive(&mode, &original, &class, 4000);
+            f.replay["original_bytes"] = json!(original.len());
+            f.replay["minimise_executions"] = json!(used);
+            f.replay["input"]["hex"] = json!(hex(&min));
+            f.replay["input"]["what"] = json!(format!("{} [minimised from {} to {} bytes]", f.replay["input"]["what"].as_str().unwrap_or(""), original.len(), min.len()));
+        } else if expect == "Accept" && f.replay["part"] == "files" && (class == "valid-input-rejected" || class == "readback-differs") {
+            if let Some((b, dbg, used)) = shrink_model(opts.seed, &opts.tier, f.replay["case"].as_u64().unwrap_or(0), &class) {
+                f.replay["original_bytes"] = json!(original.len());
+                f.replay["minimise_executions"] = json!(used);
+                f.replay["input"]["hex"] = json!(hex(&b));
+                f.replay["input"]["expected_debug"] = json!(dbg);
+                f.replay["input"]["what"] = json!(format!("{} [model minimised: {} -> {} bytes]", f.replay["input"]["what"].as_str().unwrap_or(""), original.len(), b.len()));
+            }
+        }
     }
     let (code, new) = report("C16", &findings);
     let wall = start.elapsed().as_secs_f64();
@@ -1088,6 +1130,109 @@ pub fn run(opts: &Opts, only: Option<Part>) -> i32 {
     code
 }
 
+/// Delta-debug the bytes of an input that only has to be *survived* (so that any shrunk input
+/// carries the same obligation): drop chunks, then zero bytes, while the same class persists.
+fn shrink_survive(mode: &str, bytes: &[u8], class: &str, budget: usize) -> (Vec<u8>, usize) {
+    let fails = |b: &[u8]| -> bool {
+        let input = Input { mode: mode.to_string(), hex: String::new(), expect: Expect::Survive, expected_debug: None, what: String::new() };
+        let mut t = Tally::default();
+        let mut rng = Rng::new(99);
+        evaluate(&input, b, &mut rng, &mut t).map_or(false, |p| p.class == class)
+    };
+    let mut best = bytes.to_vec();
+    let mut used = 0;
+    if !fails(&best) {
+        return (best, 1);
+    }
+    let mut chunk = (best.len() / 2).max(1);
+    while chunk >= 1 && used < budget {
+        let mut i = 0;
+        let mut progress = false;
+        while i < best.len() && used < budget {
+            let end = (i + chunk).min(best.len());
+            let mut cand = best.clone();
+            cand.drain(i..end);
+            used += 1;
+            if fails(&cand) {
+                best = cand;
+                progress = true;
+            } else {
+                i += chunk;
+            }
+        }
+        if chunk == 1 && !progress {
+            break;
+        }
+        if !progress {
+            chunk /= 2;
+        }
+    }
+    for i in 0..best.len() {
+        if used >= budget {
+            break;
+        }
+        if best[i] != 0 {
+            let mut cand = best.clone();
+            cand[i] = 0;
+            used += 1;
+            if fails(&cand) {
+                best = cand;
+            }
+        }
+    }
+    (best, used)
+}
+
+/// Shrink the *model* behind a writer-produced file that was wrongly rejected or read back
+/// differently: drop transitions (not the last one, which the footer must match), leap records
+/// and indicator arrays while the same class persists. Every candidate is again writer output.
+fn shrink_model(seed: u64, tier: &str, case: u64, class: &str) -> Option<(Vec<u8>, String, usize)> {
+    let mut rng = Rng::new(crate::rng::derive(seed, Part::Files.stream(), case));
+    let g = gen::gen_zone(&mut rng, &zone_cfg(tier));
+    let fails = |m: &ZoneModel, o: &tzif::TzifOpts| -> bool {
+        let (b, _) = tzif::write(m, o);
+        let input = Input { mode: "tzif".into(), hex: String::new(), expect: Expect::Accept, expected_debug: Some(m.debug()), what: String::new() };
+        let mut t = Tally::default();
+        let mut r = Rng::new(99);
+        evaluate(&input, &b, &mut r, &mut t).map_or(false, |p| p.class == class)
+    };
+    let (mut m, mut o) = (g.model.clone(), g.opts.clone());
+    if !fails(&m, &o) {
+        return None;
+    }
+    let mut used = 1;
+    if !m.leaps.is_empty() {
+        let mut c = m.clone();
+        c.leaps.clear();
+        used += 1;
+        if fails(&c, &o) {
+            m = c;
+        }
+    }
+    if !o.isstd.is_empty() {
+        let mut c = o.clone();
+        c.isstd.clear();
+        c.isut.clear();
+        used += 1;
+        if fails(&m, &c) {
+            o = c;
+        }
+    }
+    let mut k = 0;
+    while m.trans.len() > 1 && k + 1 < m.trans.len() {
+        let mut c = m.clone();
+        c.trans.remove(k);
+        used += 1;
+        if fails(&c, &o) {
+            m = c;
+        } else {
+            k += 1;
+        }
+    }
+    let (b, _) = tzif::write(&m, &o);
+    Some((b, m.debug(), used))
+}
+
 /// Regenerate the bytes of a problem input (shards do not ship them) by re-running its case.
 fn fill_input_bytes(f: &mut Finding) {
     let part = Part::parse(f.replay["part"].as_str().unwrap_or("")).unwrap_or(Part::Random);
@@ -1107,6 +1252,7 @@ fn fill_input_bytes(f: &mut Finding) {
 }
 
 thread_local! {
+    static HEART: std::cell::RefCell<Option<crate::runner::Heartbeat>> = const { std::cell::RefCell::new(None) };
     static CAPTURE: std::cell::RefCell<Option<(String, Option<Vec<u8>>)>> = const { std::cell::RefCell::new(None) };
 }
 
@@ -1154,6 +1300,28 @@ pub fn replay(v: &Value) -> i32 {
         }
     };
     let class = v["class"].as_str().unwrap_or("");
+    if class == "hang" {
+        // a replay that hangs would be no use: run it on a thread and give it the same 30 s
+        let (tx, rx) = std::sync::mpsc::channel();
+        let (mode, b2) = (input.mode.clone(), bytes.clone());
+        std::thread::spawn(move || {
+            let r = guarded(|| parse_input(&mode, &b2).map(|z| z.debug()));
+            let _ = tx.send(format!("{:?}", r));
+        });
+        println!("input ({} bytes, {}): {}", bytes.len(), input.mode, input.what);
+        return match rx.recv_timeout(std::time::Duration::from_secs(30)) {
+            Ok(r) => {
+                println!("reader returned: {}", r);
+                println!("not reproduced");
+                0
+            }
+            Err(_) => {
+                println!("hang :: no answer within 30 s");
+                println!("VIOLATION property=C16 replay=<this file>");
+                std::process::exit(1);
+            }
+        };
+    }
     let mut rng = Rng::new(crate::rng::derive(v["seed"].as_u64().unwrap_or(0), 1699, v["case"].as_u64().unwrap_or(0)));
     let mut t = Tally::default();
     println!("input ({} bytes, {}): {}", bytes.len(), input.mode, input.what);
